@@ -182,6 +182,9 @@ class Lower:
         self.pre = []       # statements to emit before the current statement (hoisted temporaries)
         self.tmpn = 0
         self.tables = []    # file-level generated tables
+        self.needed_globals = set()
+        self.global_defs = []
+        self.fn_unlowered = {}
 
     # ---------- types
     def ctype(self, t):
@@ -309,7 +312,46 @@ class Lower:
         name = rd['name']
         if rd.get('kind') == 'EnumConstantDecl':
             return 'BL_' + name
+        if rd.get('kind') == 'VarDecl' and name not in self.locals and self.is_global_const(n):
+            self.needed_globals.add(name)
+            return 'BLG_' + name
         return name
+
+    def is_global_const(self, n):
+        t = n.get('type', {}).get('qualType', '')
+        return t.startswith('const ') and self.ctype_safe(qt(n)) in INT_TYPES | {'double', 'float'}
+
+    def resolve_globals(self, gdocs):
+        """file-level arithmetic constants (static const / constexpr) become C constants with the value clang folded"""
+        for name in sorted(self.needed_globals):
+            vs = [d for d in gdocs if d.get('kind') == 'VarDecl' and d.get('name') == name and kids(d)]
+            if len(vs) != 1:
+                raise Unsupported('global constant %s: %d definitions' % (name, len(vs)))
+            lits = []
+            walk(vs[0], lambda z: lits.append(z) if z.get('kind') in ('IntegerLiteral', 'FloatingLiteral', 'ConstantExpr') else None)
+            val = None
+            for z in lits:
+                if z.get('kind') == 'ConstantExpr' and 'value' in z:
+                    val = z['value']
+                    break
+            if val is None:
+                plain = [z for z in lits if z.get('kind') != 'ConstantExpr']
+                ops = []
+                walk(vs[0], lambda z: ops.append(z) if z.get('kind') in ('BinaryOperator', 'UnaryOperator', 'CallExpr', 'DeclRefExpr') else None)
+                if len(plain) != 1 or ops:
+                    raise Unsupported('global constant %s is not a plain literal' % name)
+                val = plain[0]['value']
+            self.global_defs.append('static const %s BLG_%s = %s;' % (self.ctype(qt(vs[0])), name, val))
+
+    def head_only(self, d, cname=None, is_method=True):
+        fn = d['name'] if cname is None else cname
+        rt = self.ret_ctype(d)
+        params = ['struct %s *self' % self.SELF_T] if is_method else []
+        for pd in kids(d):
+            if pd.get('kind') == 'ParmVarDecl':
+                params.append(self.param(pd))
+        cn = (self.CLS + '_' if self.CLS else '') + fn
+        return '%s %s(%s)' % (rt, cn, ', '.join(params) if params else 'void')
 
     def member(self, n):
         base = kids(n)[0]
